@@ -46,7 +46,8 @@ class BitStore:
 
     def __init__(self, initializer: Union[int, bitarray.bitarray, str, None] = None,
                  immutable: bool = False) -> None:
-        self._bitarray = bitarray.bitarray(initializer)
+        # Always big-endian, whatever the endianness of a bitarray we're given (the bits stay in the same order).
+        self._bitarray = bitarray.bitarray(initializer, endian='big')
         self.immutable = immutable
         self.modified_length = None
 
